@@ -69,8 +69,8 @@ func c13Damage(q c13Req, msg []byte, src, dst []byte) []byte {
 }
 
 var (
-	c13A2v4      = []byte{10, 0, 0, 7}
-	c13A2v6      = []byte("\xfd\x00\x00\x00\x00\x00\x00\x00\x00\x00\x00\x00\x00\x00\x00\x07")
+	c13A2v4      = []byte{10, 0, 0, 255} // an ordinary unicast address (the network is wider than /24)
+	c13A2v6      = []byte("\xfd\x00\x00\x00\x00\x00\x00\x00\x00\x00\x00\x00\x00\x00\x00\xff")
 	c13Foreign4  = []byte{10, 0, 0, 99}
 	c13Foreign6  = []byte("\xfd\x00\x00\x00\x00\x00\x00\x00\x00\x00\x00\x00\x00\x00\x00\x63")
 	c13Unassign4 = []byte{192, 168, 77, 1}
